@@ -6,6 +6,7 @@
 -/
 import SnowProofs.Lemmas.Snowing2D
 import SnowProofs.Lemmas.Stencil1D
+import SnowProofs.Lemmas.Snowing2DRun
 import SnowModel.Flake
 import Mathlib.Analysis.SpecialFunctions.Sqrt
 import Mathlib.Tactic.NormNum
@@ -66,6 +67,55 @@ theorem radial_uniform_preserved (p : Par ℝ) (f : Flags) (Tsh : ℝ) (qe : Nat
             (col 0 + (p.K_shelf * (Tsh - col 0)) * dz p / kEff0 p)
             (col (p.Nz - 1) + q * dz p / kEff0 p) col i :=
   radial_uniform_ctx (mkCtx p f) Tsh qe q T col (by simp [mkCtx]) (by simp [mkCtx]) hcfg hNz hNr hU hq
+
+/-! ### radial uniformity over the whole cooling loop -/
+
+/-- the hypothesis `hq` of `radial_uniform_preserved` discharged: the evaporative flux of the 2D
+model depends on the column only through the column's top temperature, so on a radially uniform
+field it is the same in every column -/
+theorem qEvap_uniform (c : Ctx ℝ) (solid : Bool) (time : ℝ) (T : Array ℝ) (col : Nat → ℝ)
+    (hNz : 2 ≤ c.Nz) (hNr : 2 ≤ c.Nr)
+    (hU : ∀ i j, i < c.Nz → j < c.Nr → rd c.Nr T i j = col i) (j : Nat) (hj : j < c.Nr) :
+    S2D.qEvap c solid time T j = S2D.qEvap c solid time T 0 := by
+  have h1 : rd c.Nr T (c.Nz - 1) j = rd c.Nr T (c.Nz - 1) 0 := by
+    rw [hU _ _ (by omega) hj, hU _ _ (by omega) (by omega)]
+  unfold S2D.qEvap
+  cases c.p.config <;> simp only []
+  split
+  · simp only [h1]
+  · rfl
+
+/-- **`radial_uniform_cooling_loop`** — repaired update (`inplace = false`), no jacket (shelf or
+VISF): after EVERY step of the cooling loop the field is radially uniform (induction over
+`S2D.coolLoop` through wpE's skeleton `st2D`, using `radial_uniform_ctx` and `qEvap_uniform`). -/
+theorem radial_uniform_cooling_loop (p : Par ℝ) (f : Flags) (hin : f.inplace = false)
+    (hcfg : p.config ≠ Config.jacket) (hNz : 2 ≤ p.Nz) (hNr : 2 ≤ p.Nr)
+    (T0C : ℝ) (prof : List ℝ) (NtExp : Nat) (k : Nat) :
+    ∃ col : Nat → ℝ, ∀ i j, i < p.Nz → j < p.Nr → rd p.Nr (st2D p f T0C prof NtExp k).T i j = col i := by
+  unfold st2D
+  apply stateAt_invariant (coolStep2D p f NtExp)
+    (fun s => ∃ col : Nat → ℝ, ∀ i j, i < p.Nz → j < p.Nr → rd p.Nr s.T i j = col i)
+  · refine ⟨fun _ => zero + (T0C + kelvin), ?_⟩
+    intro i j hi hj
+    have h := Snow.S2D.idx_lt hi hj
+    simp [coolInit2D, rd, Array.getD, mkCtx, h]
+  · intro i s x ⟨col, hU⟩
+    have hl2 : (mkCtx p f).l2 = (2 : ℝ) := by simp [mkCtx]
+    have hl1 : (mkCtx p f).l1 = (1 : ℝ) := by simp [mkCtx]
+    have hinp : (mkCtx p f).f.inplace = false := hin
+    have hq : ∀ j, j < (mkCtx p f).Nr →
+        S2D.qEvap (mkCtx p f) false ((mkCtx p f).dt * ofNat' i) s.T j
+          = S2D.qEvap (mkCtx p f) false ((mkCtx p f).dt * ofNat' i) s.T 0 :=
+      fun j hj => qEvap_uniform (mkCtx p f) false _ s.T col hNz hNr hU j hj
+    have h := radial_uniform_ctx (mkCtx p f) x _ _ s.T col hl2 hl1 hcfg hNz hNr hU hq
+    refine ⟨fun i' => col1D (mkCtx p f).Nz ((mkCtx p f).a0 / ((mkCtx p f).dz * (mkCtx p f).dz))
+        (col 0 + (mkCtx p f).p.K_shelf * (x - col 0) * (mkCtx p f).dz / (mkCtx p f).k0)
+        (col ((mkCtx p f).Nz - 1)
+          + S2D.qEvap (mkCtx p f) false ((mkCtx p f).dt * ofNat' i) s.T 0 * (mkCtx p f).dz / (mkCtx p f).k0)
+        col i', fun i' j hi' hj => ?_⟩
+    have := h i' j hi' hj
+    simp only [coolStep2D, coolStepSt, hinp]
+    exact this
 
 /-! ### the in-place code breaks radial uniformity (F10): exact witness on a 3 × 3 grid -/
 
@@ -150,6 +200,27 @@ theorem mean1D_obeys_0D (Nz : Nat) (hNz : 2 ≤ Nz) (col : Nat → ℝ)
   rw [h']
   field_simp
   ring
+
+/-- **`mean1D_obeys_0D` for the model's step** (`Snow.coolField1D`): the mean of the column after
+one cooling step of `_run_1D` is the old mean plus `dt·(A·K_shelf·(T_sh − T[0]) + A·q_e)/(c_p·m)`
+with `m = ρ·A·H`, `q_e = qEvap` (zero outside VISF / the vacuum window). -/
+theorem mean1D_obeys_0D_field (p : SnowIn ℝ) (g : Grid1D ℝ) (i : Nat) (T : Array ℝ) (Tsh H A : ℝ)
+    (hsz : T.size = g.Nz) (hNz : 2 ≤ g.Nz) (hdz : g.dz = H / g.Nz)
+    (hfo : g.fo = (g.lam0 / (p.const.cp_solution * p.const.rho_l)) * g.dt / (g.dz * g.dz))
+    (hrho : p.const.rho_l ≠ 0) (hcp : p.const.cp_solution ≠ 0) (hlam : g.lam0 ≠ 0) (hH : H ≠ 0) (hA : A ≠ 0) :
+    (∑ j ∈ Finset.range g.Nz, aget (coolField1D p g i T Tsh) j) / g.Nz
+      = (∑ j ∈ Finset.range g.Nz, aget T j) / g.Nz
+        + g.dt * (A * p.Kshelf * (Tsh - aget T 0)
+            + A * Snow.qEvap p Evap.vapourPressureLiquid (g.dt * (i : ℝ)) (aget T (g.Nz - 1)))
+          / (p.const.cp_solution * (p.const.rho_l * A * H)) := by
+  have h := mean1D_obeys_0D g.Nz hNz (aget T) p.const.rho_l p.const.cp_solution g.lam0 H A g.dt p.Kshelf Tsh
+    (Snow.qEvap p Evap.vapourPressureLiquid (g.dt * (i : ℝ)) (aget T (g.Nz - 1))) hrho hcp hlam hH hA
+  rw [← h]
+  congr 1
+  apply Finset.sum_congr rfl
+  intro j hj
+  have hj' : j < T.size := by rw [hsz]; exact Finset.mem_range.mp hj
+  rw [coolField1D_get p g i T Tsh (by omega) j hj', hsz, hfo, hdz]
 
 /-! ### Snowflake (1 × 1 × 1) and the homogeneous Snowing model -/
 
@@ -321,9 +392,15 @@ theorem nuc0D_eq_direct (c : Flake.Consts ℝ) (q : SnowIn ℝ) (T : ℝ)
 `direct_core` for the default sucrose solution at 10 K supercooling -/
 theorem nonvacuous :
     (pW.config ≠ Config.jacket ∧ 2 ≤ pW.Nz ∧ 2 ≤ pW.Nr) ∧
+    -- `hU`, `hq` of `radial_uniform_preserved`: the uniform 3 × 3 real field 10, zero top flux
+    (∀ i j, i < 3 → j < 3 → rd 3 (Array.replicate 9 (10 : ℝ)) i j = (fun _ => (10 : ℝ)) i) ∧
+    (∀ j, j < 3 → (fun _ : Nat => (0 : ℝ)) j = 0) ∧
     (∃ s : ℝ, 0 ≤ s ∧ s * s = ((10 : ℝ) - 78) ^ 2 + 4 * 78 * (3 / 10)) := by
-  refine ⟨⟨by decide, by decide, by decide⟩, ?_⟩
-  exact ⟨Real.sqrt (((10 : ℝ) - 78) ^ 2 + 4 * 78 * (3 / 10)), Real.sqrt_nonneg _,
-    Real.mul_self_sqrt (by norm_num)⟩
+  refine ⟨⟨by decide, by decide, by decide⟩, ?_, fun _ _ => rfl, ?_⟩
+  · intro i j hi hj
+    have h : i * 3 + j < 9 := by omega
+    simp [rd, Array.getD, h]
+  · exact ⟨Real.sqrt (((10 : ℝ) - 78) ^ 2 + 4 * 78 * (3 / 10)), Real.sqrt_nonneg _,
+      Real.mul_self_sqrt (by norm_num)⟩
 
 end Snow.C15
